@@ -85,6 +85,15 @@ def gen_scenarios(tier, seed):
                       task_flags=1 | rng.choice([0, TASK_F_EVERY_READ]), sfio=rng.below(2), timeout_ms=rng.choice([0, 5000]),
                       close_mode=0, wait_done=0, quiesce_ms=rng.choice([5, 30]), payload=rng.bytes(P),
                       frags=fragments(rng, P, rng.choice([1, 50]), [0, 0, 50])))
+    # A1c: the application closes the descriptor itself and then destroys the still armed task (event removal fails with EBADF):
+    # the task's timeout timer must be gone as well - no callback after destroy, also once the timeout has passed
+    for i in range(4 * scale):
+        S = rng.choice([64, 256])
+        P = rng.choice([1, 10])
+        out.append(mk(rng, family="destroy-after-descriptor-closed", S=S, win_o=0, win_t=S, event_flags=rng.choice([0, TP_F_DISPATCH]),
+                      task_flags=0x80 | rng.choice([0, TASK_F_EVERY_READ]), sfio=rng.below(2), timeout_ms=rng.choice([100, 200]),
+                      close_mode=0, wait_done=0, quiesce_ms=rng.choice([5, 20]), payload=rng.bytes(P),
+                      frags=fragments(rng, P, 1, [0])))
     # A2: dispatch (manual mode) tasks: after some CONTINUEs the callback returns NONE without stopping; silence is required until re-enable
     for i in range(16 * scale):
         S = rng.choice([8, 64, 256])
